@@ -62,15 +62,16 @@ def n_units(off: int, length: int, unit: int) -> int:
 
 
 def grid_layouts(lo: int, hi: int, pairs: bool = True, chains: tuple = (3, 4), chain_lo: Optional[int] = None,
-                 chain_hi: Optional[int] = None) -> list[tuple]:
+                 chain_hi: Optional[int] = None, pair_lo: Optional[int] = None, pair_hi: Optional[int] = None) -> list[tuple]:
     """All placements of pairwise disjoint ranges [i, j) with cut points on lo..hi:
     every single range, every disjoint ordered pair, and for k in `chains` every chain of k adjacent
     ranges (cut points p0 < p1 < .. < pk) with cut points on chain_lo..chain_hi."""
     pts = list(range(lo, hi + 1))
     out: list[tuple] = [((i, j),) for i, j in itertools.combinations(pts, 2)]
     if pairs:
-        for i1, j1 in itertools.combinations(pts, 2):
-            for i2, j2 in itertools.combinations([p for p in pts if p >= j1], 2):
+        ppts = [p for p in pts if (pair_lo is None or p >= pair_lo) and (pair_hi is None or p <= pair_hi)]
+        for i1, j1 in itertools.combinations(ppts, 2):
+            for i2, j2 in itertools.combinations([p for p in ppts if p >= j1], 2):
                 out.append(((i1, j1), (i2, j2)))
     cpts = list(range(lo if chain_lo is None else chain_lo, (hi if chain_hi is None else chain_hi) + 1))
     for k in chains:
@@ -616,18 +617,24 @@ def otfad_img_cases(ctx: core.Ctx) -> list[dict]:
         for off in (0, 16, U_OTFAD - 16):
             n = n_units(off, L, U_OTFAD)
             full_chains = thorough and L in LENGTHS
+            heavy = (not thorough) and L >= 4096  # quick: the most expensive length gets the inner grid for pairs too
             lays = grid_layouts(-2, n + 2, pairs=True, chains=(3, 4), chain_lo=None if full_chains else -1,
-                                chain_hi=None if full_chains else n + 1)
+                                chain_hi=None if full_chains else n + 1, pair_lo=-1 if heavy else None,
+                                pair_hi=n + 1 if heavy else None)
             for lay in lays:
                 k = len(lay)
                 # (flags, swap, endc, ctr, order) combinations
                 combos = []
                 if k == 1:
-                    combos = [((f,), sw, ec, ct, 0) for f in range(8) for sw in (0, 1) for ec in (0, 1)
-                              for ct in (("seed", "ones") if (thorough or f == 3) else ("seed",))]
+                    if thorough:
+                        combos = [((f,), sw, ec, ct, 0) for f in range(8) for sw in (0, 1) for ec in (0, 1) for ct in ("seed", "ones")]
+                    else:  # quick: full option product on the default flags, the diagonal on the other flag values
+                        combos = [((3,), sw, ec, ct, 0) for sw in (0, 1) for ec in (0, 1) for ct in ("seed", "ones")
+                                  if not heavy or ct == "seed" or sw == ec]
+                        combos += [((f,), sw, sw, "seed", 0) for f in (0, 1, 2, 4, 5, 6, 7) for sw in ((0,) if heavy else (0, 1))]
                     combos += [((3,), sw, 0, "self", 0) for sw in (0, 1)]
                 elif k == 2:
-                    combos = [((3, 3), sw, ec, "seed", 0) for sw in (0, 1) for ec in (0, 1)]
+                    combos = [((3, 3), sw, ec, "seed", 0) for sw in (0, 1) for ec in (0, 1) if thorough or sw == ec or L <= 2048]
                     if thorough and L not in LENGTHS:
                         pass  # extra lengths: geometry x swap x end convention only
                     elif thorough:
@@ -636,10 +643,11 @@ def otfad_img_cases(ctx: core.Ctx) -> list[dict]:
                                    for sw in (0, 1) for ec in (0, 1)]
                         combos += [((3, 3), 0, ec, "ones", 0) for ec in (0, 1)]
                     else:
-                        combos += [(fs, 0, 0, "seed", 0) for fs in ((7, 3), (1, 3), (3, 2), (3, 0))]
+                        combos += [(fs, 0, 0, "seed", 0) for fs in ((1, 3), (3, 2))]
                 else:
                     alt = tuple([3, 1] * 2)[:k]
-                    combos = [(tuple([3] * k), sw, ec, "seed", 0) for sw in (0, 1) for ec in (0, 1)] + [(alt, 0, 0, "seed", 0)]
+                    combos = [(tuple([3] * k), sw, ec, "seed", 0) for sw in (0, 1) for ec in (0, 1) if not heavy or sw == ec]
+                    combos += [(alt, 0, 0, "seed", 0)]
                     if thorough:
                         combos += [(tuple([3] * k), 0, ec, "seed", 1) for ec in (0, 1)]
                 for fs, sw, ec, ct, order in combos:
@@ -655,14 +663,14 @@ def otfad_img_cases(ctx: core.Ctx) -> list[dict]:
                     cases.append(c)
     # address windows at both ends of the 32-bit space (address word carry, clipping)
     for win in ("low", "top"):
-        for L in (LENGTHS if thorough else (1, 16, 17, 1024, 1025, 4097)):
+        for L in (LENGTHS if thorough else (1, 17, 1025, 4097)):
             for off in (0, 16, U_OTFAD - 16):
                 n = n_units(off, L, U_OTFAD)
                 lo = 0 if win == "low" else -2
                 for lay in grid_layouts(lo, n + 2, pairs=thorough, chains=()):
                     for swap in (0, 1):
                         for endc in (0, 1):
-                            for ctr in ("seed", "ones"):
+                            for ctr in (("seed", "ones") if (thorough or L < 4096) else ("seed",)):
                                 cases.append({"e": "otfad-img", "seed": ctx.seed, "L": L, "off": off, "win": win,
                                               "regs": [[i, j, 3] for i, j in lay], "swap": swap, "endc": endc, "ctr": ctr})
     return cases
@@ -963,14 +971,15 @@ def iee_blobapi_cases(ctx: core.Ctx) -> list[dict]:
 def iee_img_cases(ctx: core.Ctx) -> list[dict]:
     thorough = ctx.tier == "thorough"
     cases = []
-    second = IEE_CLAIMED + [("CTRN", 128), ("KSTR", 256)] if thorough else [("XTS", 256), ("CTRA", 128), ("BYP", 128)]
+    second = IEE_CLAIMED + [("CTRN", 128), ("KSTR", 256)] if thorough else [("XTS", 256), ("CTRA", 128)]
     for win in ("mid", "low", "high"):
-        for L in (IEE_LENGTHS_THOROUGH if thorough else IEE_LENGTHS):
+        for L in (IEE_LENGTHS_THOROUGH if thorough else IEE_LENGTHS if win == "mid" else (1, 17, 4096, 4097, 8193)):
             n = n_units(0, L, U_IEE)
             lo = 0 if win == "low" else -2
             full = win == "mid" or thorough
             lays = grid_layouts(lo, n + 2, pairs=full, chains=(3, 4) if full else (), chain_lo=None if thorough else max(lo, -1),
-                                chain_hi=None if thorough else n + 1)
+                                chain_hi=None if thorough else n + 1, pair_lo=None if thorough else max(lo, -1),
+                                pair_hi=None if thorough else n + 1)
             for lay in lays:
                 k = len(lay)
                 if k == 1:
@@ -1230,7 +1239,7 @@ def bee_img_cases(ctx: core.Ctx) -> list[dict]:
                             c["pieces"] = (U_BEE, 16)
                         cases.append(c)
     for win in ("low", "top"):
-        for L in (LENGTHS if thorough else (1, 16, 17, 1024, 1025, 4097)):
+        for L in (LENGTHS if thorough else (1, 17, 1025, 4097)):
             for off in (0, 16, U_BEE - 16):
                 n = n_units(off, L, U_BEE)
                 lo = 0 if win == "low" else -2
@@ -1483,7 +1492,7 @@ def otfad_nxp_cases(ctx: core.Ctx) -> list[dict]:
     cases = []
     b = {"e": "otfad-nxp", "seed": ctx.seed}
     for fam in (OTFAD_REPS if thorough else OTFAD_REPS[:1]):
-        for L in (1, 17, 1025, 2048):
+        for L in ((1, 17, 1025, 2048) if thorough else (1, 17, 1025)):
             for off in (0, 16, U_OTFAD - 16):
                 n = n_units(off, L, U_OTFAD)
                 for lay in small_layouts(n):
@@ -1495,8 +1504,8 @@ def otfad_nxp_cases(ctx: core.Ctx) -> list[dict]:
     for fam in sorted(OTFAD_FAM):
         for off in (0, 16):
             for lay in (((0, 2),), ((0, 1),), ((0, 1), (1, 2)), ((0, 1), (1, 2), (2, 3), (3, 4))):
-                for scr in (None, (0x12345678, 0x72), (0x80000001, 0x1B)):
-                    for endc in (0, 1):
+                for si, scr in enumerate((None, (0x12345678, 0x72), (0x80000001, 0x1B))):
+                    for endc in ((0, 1) if (thorough or scr is None) else (si % 2,)):
                         cases.append(dict(b, fam=fam, blobs=[[off, 1025]], regs=[[i, j, 7] for i, j in lay], endc=endc, swap=0, scr=scr))
     for lay in small_layouts(4):
         for off2 in (0x800, 0x810, 0xBF0):
@@ -1509,7 +1518,7 @@ def iee_nxp_cases(ctx: core.Ctx) -> list[dict]:
     cases = []
     b = {"e": "iee-nxp", "seed": ctx.seed}
     for fam in ("mimxrt1176", "mimxrt1189"):
-        for L in (1, 16, 17, 4096, 4097, 8193):
+        for L in ((1, 16, 17, 4096, 4097, 8193) if thorough else (1, 17, 4097, 8193)):
             n = n_units(0, L, U_IEE)
             for lay in small_layouts(n):
                 if not IEE_FAM[fam] and len(lay) > 1:
@@ -1594,7 +1603,7 @@ def run(ctx: core.Ctx) -> None:
         "address_windows": {"otfad": ["0x08001000", "0x0", "top of 32 bit"], "iee": [hex(v) for v in IEE_WIN.values()],
                             "bee": ["0x60001000", "0x0", "top of 32 bit"]},
         "region_layouts": "every single range, every disjoint ordered pair, every chain of 3-4 adjacent ranges with cut points on "
-                          "the unit grid [-2, n+2] around the image (n = units touched); quick: chains on [-1, n+1]",
+                          "the unit grid [-2, n+2] around the image (n = units touched); quick: chains (and IEE pairs) on [-1, n+1]",
         "otfad_flags": "all 8 RO/ADE/VLD values on single blobs; one-departure flag variants on pairs",
         "otfad_options": {"byte_swap": [0, 1], "end_addr convention": ["last address", "last address + 1"],
                           "counter": ["seeded", "all ones"], "kek": list(KEK_PATTERNS), "scramble(mask,align)": SCRAMBLES,
